@@ -221,11 +221,11 @@ var rOneParser = &Rule{
 					case *ssa.Const:
 					case *ssa.Extract:
 						call, isCall := x.Tuple.(*ssa.Call)
-						if !isCall || sx.Callee(call) == nil || !allowed[sx.Callee(call).Name()] {
+						if !isCall || !calleeAllowed(call, allowed, 0) {
 							ok = false
 						}
 					case *ssa.Call:
-						if sx.Callee(x) == nil || !allowed[sx.Callee(x).Name()] {
+						if !calleeAllowed(x, allowed, 0) {
 							ok = false
 						}
 					case *ssa.Phi, *ssa.UnOp, *ssa.TypeAssert:
@@ -244,6 +244,30 @@ var rOneParser = &Rule{
 		check("GetReportableStackTrace", "parsePrintedStack", []string{"convertPkgStack"})
 		check("convertPkgStack", "parsePrintedStack", nil)
 	},
+}
+
+// calleeAllowed: the call goes to one of the allowed producers, or to an unexported helper of the same package
+// every result of which is a constant or comes from an allowed producer.
+func calleeAllowed(call *ssa.Call, allowed map[string]bool, d int) bool {
+	h := sx.Callee(call)
+	if h == nil {
+		return false
+	}
+	if allowed[h.Name()] {
+		return true
+	}
+	if d > 2 || h.Blocks == nil || call.Parent() == nil || h.Pkg != call.Parent().Pkg || sx.Exported(h) {
+		return false
+	}
+	rets := sx.Returns(h)
+	for _, r := range rets {
+		for _, res := range r.Results {
+			if !phiFromAllowed(res, allowed, d+1) {
+				return false
+			}
+		}
+	}
+	return len(rets) > 0
 }
 
 func phiFromAllowed(v ssa.Value, allowed map[string]bool, d int) bool {
@@ -288,9 +312,9 @@ func phiFromAllowed(v ssa.Value, allowed map[string]bool, d int) bool {
 		return n > 0 && good
 	case *ssa.Extract:
 		call, ok := x.Tuple.(*ssa.Call)
-		return ok && sx.Callee(call) != nil && allowed[sx.Callee(call).Name()]
+		return ok && calleeAllowed(call, allowed, d)
 	case *ssa.Call:
-		return sx.Callee(x) != nil && allowed[sx.Callee(x).Name()]
+		return calleeAllowed(x, allowed, d)
 	case *ssa.UnOp:
 		if al, ok := x.X.(*ssa.Alloc); ok {
 			for _, r := range *al.Referrers() {
@@ -319,15 +343,18 @@ var rSiblingGuard = &Rule{
 			}
 			var out string
 			var pos token.Pos
-			sx.EachInstr(fn, func(in ssa.Instruction) {
+			// the unmarshalling may sit in a helper (possibly shared by the two siblings): the condition is then the
+			// helper's own guards, its parameters read as the arguments of this sibling's call, plus the guards at the call
+			reg := regionOf(fn)
+			reg.each(func(in ssa.Instruction) {
 				call, ok := in.(*ssa.Call)
 				if !ok || sx.Callee(call) == nil || sx.Callee(call).Name() != "UnmarshalAny" {
 					return
 				}
 				pos = call.Pos()
 				var parts []string
-				for _, l := range dominatingLits(call.Block()) {
-					parts = append(parts, litShape(l))
+				for _, l := range reg.lits(call.Block()) {
+					parts = append(parts, litShapeIn(reg, l))
 				}
 				out = strings.Join(parts, " && ")
 			})
@@ -338,6 +365,45 @@ var rSiblingGuard = &Rule{
 		c.Check(a == b && a != "", "errbase.decodeLeaf / decodeWrapper: condition for unmarshalling the payload", pa, a, fmt.Sprintf("the siblings unmarshal the payload under different conditions: leaf [%s] vs wrapper [%s]", a, b))
 		c.Check(a == "FullDetails != nil" || a == "", "errbase.decodeLeaf: payload condition", pa, "exactly FullDetails != nil", "the payload is unmarshalled under ["+a+"], not exactly when it is present")
 	},
+}
+
+// litShapeIn: litShape with the parameters of the region's helpers read as the arguments at their call sites.
+func litShapeIn(reg *region, l lit) string {
+	sub := func(v ssa.Value) ssa.Value {
+		for d := 0; d < 4; d++ {
+			prm, ok := v.(*ssa.Parameter)
+			if !ok || prm.Parent() == reg.anchor {
+				return v
+			}
+			idx := -1
+			for i, q := range prm.Parent().Params {
+				if q == prm {
+					idx = i
+				}
+			}
+			sites := reg.sites[prm.Parent()]
+			if idx < 0 || len(sites) == 0 {
+				return v
+			}
+			var arg ssa.Value
+			for _, s := range sites {
+				if idx >= len(s.Call.Args) || (arg != nil && operandShape(s.Call.Args[idx]) != operandShape(arg)) {
+					return v
+				}
+				arg = s.Call.Args[idx]
+			}
+			v = arg
+		}
+		return v
+	}
+	if x, ok := l.V.(*ssa.BinOp); ok {
+		op := x.Op
+		if l.Neg {
+			op = map[token.Token]token.Token{token.EQL: token.NEQ, token.NEQ: token.EQL, token.GTR: token.LEQ, token.LEQ: token.GTR, token.LSS: token.GEQ, token.GEQ: token.LSS}[op]
+		}
+		return operandShape(sub(x.X)) + " " + op.String() + " " + operandShape(sub(x.Y))
+	}
+	return litShape(l)
 }
 
 func litShape(l lit) string {
@@ -579,23 +645,37 @@ var rFmtPath = &Rule{
 				c.Fail("errutil."+x.fn, token.NoPos, "constructor not found")
 				continue
 			}
-			var call *ssa.Call
-			sx.EachInstr(fn, func(in ssa.Instruction) {
-				if cl, ok := in.(*ssa.Call); ok && redactName(sx.Callee(cl)) == x.call {
-					call = cl
-				}
-			})
-			ok := call != nil
-			if ok {
-				for _, r := range sx.Returns(fn) {
-					if sx.IsNil(r.Results[0]) {
-						continue
+			// the formatting call dominates every non-nil return, in the constructor itself or in a same-package
+			// helper whose call dominates them and which itself formats on every path
+			var always func(f *ssa.Function, depth int) bool
+			always = func(f *ssa.Function, depth int) bool {
+				found := false
+				sx.EachInstr(f, func(in ssa.Instruction) {
+					cl, isCall := in.(*ssa.Call)
+					if !isCall || found {
+						return
 					}
-					if !call.Block().Dominates(r.Block()) {
-						ok = false
+					callee := sx.Callee(cl)
+					direct := redactName(callee) == x.call
+					viaHelper := !direct && depth < 2 && callee != nil && callee != f && callee.Blocks != nil && callee.Pkg == fn.Pkg && !sx.Exported(callee)
+					if !direct && !viaHelper {
+						return
 					}
-				}
+					for _, r := range sx.Returns(f) {
+						if sx.IsNil(r.Results[0]) {
+							continue
+						}
+						if !cl.Block().Dominates(r.Block()) {
+							return
+						}
+					}
+					if direct || always(callee, depth+1) {
+						found = true
+					}
+				})
+				return found
 			}
+			ok := always(fn, 0)
 			c.Check(ok, "errutil."+x.fn+": formatting on every path", fn.Pos(), "redact."+x.call+" dominates every non-nil return", "some path builds the error without formatting (format, args): the text is not the fmt-formatted text")
 		}
 	},
@@ -614,7 +694,7 @@ var rStackParse = &Rule{
 			return
 		}
 		found, other := false, ""
-		sx.EachInstr(fn, func(in ssa.Instruction) {
+		regionOf(fn).each(func(in ssa.Instruction) {
 			call, ok := in.(*ssa.Call)
 			if !ok {
 				return
